@@ -11,22 +11,14 @@ from . import core_folds as cf
 from .common import (calls_in, is_name, params, single_return, root_name, returns_of, stores_in, flatten_targets,
                      attr_chain, bind_call)
 
-EXPLANATION = (
-    "Static rules: (R1) each in-place operator of Array equals its out-of-place sibling plus out=self, and each in-place "
-    "operator of Vector forwards the in-place dunder to every component; (R2) with out= numpy writes into the existing "
-    "buffer, the derived unit is stored on the out object and that same object is returned; (R3) neither _binary_op ever "
-    "stores through the right operand; (R4) Array.copy allocates a fresh buffer, Vector.copy copies every component, "
-    "__copy__/__deepcopy__ delegate to copy(), containers define no shallow __deepcopy__; (R5) Datagroup.copy/Dataset.copy "
-    "re-insert the same member objects; (R6) Array.__getitem__ wraps the numpy index result without copying and "
-    "Vector.__getitem__ indexes every component.")
-NOT_DECIDED = ("numpy's view-versus-copy semantics per index kind; representability of an in-place result in the "
-               "destination dtype (the property's own premise)")
-TRUSTED = ("CPython ast", "numpy semantics of out= and of basic slicing", "copy.deepcopy default behaviour for objects "
-           "without __deepcopy__")
+EXPLANATION = '(R1) in-place dunders: same operation/strictness as the out-of-place sibling, out=self; Vector forwards them per component; (R2) out=: numpy receives the buffer of the out Array, the unit is stored on it and the same object returned; (R3) operands unchanged by every binary operator (Array and Vector); (R4) copy()/copy.copy/deepcopy of Array and Vector on fresh buffers (copy protocol resolved through the MRO), deepcopy of containers independent, container copy() shallow with its own metadata dict; (R6) Array.__init__ keeps the buffer it is given, __getitem__ wraps the numpy index result, Vector maps per component.'
+NOT_DECIDED = "numpy's own view/copy rules for fancy indexing; buffers shared through numpy operations outside osyris"
+TRUSTED = ('CPython ast', 'numpy out= semantics', 'the interpreter sa/models.py (ModelEval) and its library models')
 
 ARRAY, VECTOR = "core/array.py::Array", "core/vector.py::Vector"
 VBINOP = "core/vector.py::_binary_op"
 
+TECHNIQUE = 'static analysis: abstract interpretation over buffer tokens with object identity (aliasing) tracked'
 
 def r1_inplace_twins(run, tree):
     run.rule("C17.R1", "in-place twins: same ufunc and strictness as the sibling, out=self; Vector forwards in-place dunders",
